@@ -1,6 +1,6 @@
 """What MANIFEST.json claims.  Edit here, then run bin/mkmanifest."""
 
-HOOK_COMMITS = []
+HOOK_COMMITS = ["a9dec7a verif hook: on-demand hot-tier coherence audit (cfg kyrodb_verif)"]
 
 CLAIMS = [
     {"id": "C02",
@@ -12,6 +12,23 @@ CLAIMS = [
      "note": "small-scope hypothesis (2-3 ids, 2 vectors, 3 metadata shapes); restart is in-process drop + strict recover; "
              "TLC, the JSON community module and the Rust projection code are trusted",
      "ref": "DESIGN.md section 6 (C02)"},
+    {"id": "C04",
+     "technique": "TLC model check of Tiered.tla (S2, adversarial pokes) + TLC-generated behaviours replayed on real TieredEngine + TLC trace validation against KV spec",
+     "text": "Tiered.tla models the cache / recent-write-mirror / canonical-store lookup protocol with coherence tokens, drains, audits, bulk loads "
+             "and adversarial pokes; TLC checks ReadsCanonical and DrainNeutral exhaustively for small constants. The same module generates "
+             "thousands of behaviours that are executed on the real TieredEngine for all four cache strategies, three capacity/hard-limit "
+             "settings, 3 metrics x 5 dimensions, with pokes planted directly in the real caches; every read of every flavour, every census and "
+             "a strict recovery of persisted runs is judged by TLC against the S1 map semantics (KVTrace.tla).",
+     "note": "small scope (2 ids, 2 vectors); admission is whatever the real strategy decides (the model check covers every choice); "
+             "one known finding (planted hot-only orphan handled as a document by write-side paths) is listed in known_findings.json",
+     "ref": "DESIGN.md section 6 (C04)"},
+    {"id": "C20",
+     "technique": "TLC model check of Tiered.tla size invariants + replay on real TieredEngine with sizes observed after every call, judged by TLC (KVTrace SizesOk)",
+     "text": "SizesBounded / L1Unique are model-checked in Tiered.tla; generated behaviours run on the real engine with capacities {1,2,3} and hard "
+             "limits {1,2,3} for all strategies; after every call the real cache sizes are recorded and TLC validates them against the configured "
+             "bounds; reads after evictions / drains are validated against the canonical content.",
+     "note": "A/B strategy bound is per arm (as the server constructs it); query-result cache growth is exercised by the search lab",
+     "ref": "DESIGN.md section 6 (C20)"},
 ]
 
 _PENDING = "not yet covered by the specification suite in this revision (see DESIGN.md section 11 for the construction order)"
